@@ -14,17 +14,18 @@ theorem C06_iff (env : Env) (ss ss' : Sealed) (blk : Block) :
       ∃ basis applied, nextUnsealed env ss = .ok basis ∧ 2 ≤ basis.pools.length ∧
         applyBatch env basis blk.transactions default = .ok applied ∧
         sealState env applied blk.action = .ok ss' ∧ headerOf env ss' = .ok blk.header := by
-  sorry
+  exact applyBlock_eq_ok_iff env ss ss' blk
 
 /-- the returned state has precisely the block's header and action -/
 theorem C06_result_header (env : Env) (ss ss' : Sealed) (blk : Block) (h : applyBlock env ss blk = .ok ss') :
     headerOf env ss' = .ok blk.header ∧ ss'.action = blk.action := by
-  sorry
+  obtain ⟨basis, applied, _, _, _, h3, h4⟩ := (C06_iff env ss ss' blk).1 h
+  exact ⟨h4, sealState_action env applied blk.action ss' h3⟩
 
 /-- the fallback header of `applyBatch` is irrelevant after `next_unsealed` (the previous header is in the history) -/
 theorem C06_fallback_irrelevant (env : Env) (ss : Sealed) (basis : State) (h : nextUnsealed env ss = .ok basis)
     (txs : List Tx) (fb₁ fb₂ : Header) : applyBatch env basis txs fb₁ = applyBatch env basis txs fb₂ := by
-  sorry
+  exact applyBatch_congr_lastHeader env basis txs fb₁ fb₂ (lastHeaderOf_nextUnsealed env ss basis h fb₁ fb₂)
 
 /-- **honest blocks are accepted**: a block built by applying a batch to the successor state, sealing, and taking
     the header is accepted by its parent, and applying it yields exactly the sealed state -/
@@ -34,13 +35,19 @@ theorem C06_honest (env : Env) (ss sealed : Sealed) (basis u : State) (txs : Lis
     (h2 : applyBatch env basis txs fb = .ok u) (h3 : sealState env u a = .ok sealed)
     (h4 : headerOf env sealed = .ok hdr) :
     applyBlock env ss { header := hdr, transactions := txs, action := a } = .ok sealed := by
-  sorry
+  refine (C06_iff env ss sealed _).2 ⟨basis, u, h1, hp, ?_, h3, h4⟩
+  rw [C06_fallback_irrelevant env ss basis h1 txs default fb]
+  exact h2
 
 /-- altering any header field makes an otherwise acceptable block rejected with `WrongHeader` -/
 theorem C06_header_mutation (env : Env) (ss ss' : Sealed) (blk : Block) (h' : Header)
     (h : applyBlock env ss blk = .ok ss') (hne : h' ≠ blk.header) :
     applyBlock env ss { blk with header := h' } = .reject .wrongHeader := by
-  sorry
+  obtain ⟨basis, applied, h1, hp, h2, h3, h4⟩ := (C06_iff env ss ss' blk).1 h
+  have hp' : ¬ basis.pools.length < 2 := by omega
+  have hne' : ¬ blk.header = h' := fun e => hne e.symm
+  unfold applyBlock
+  simp [h1, Outcome.bind, hp', h2, h3, h4, hne']
 
 /-- a block is determined by its parent, its transactions and its action: two accepted blocks with the same
     transactions and action carry the same header and yield the same state -/
@@ -48,14 +55,22 @@ theorem C06_deterministic (env : Env) (ss s₁ s₂ : Sealed) (b₁ b₂ : Block
     (ht : b₁.transactions = b₂.transactions) (ha : b₁.action = b₂.action)
     (h₁ : applyBlock env ss b₁ = .ok s₁) (h₂ : applyBlock env ss b₂ = .ok s₂) :
     b₁.header = b₂.header ∧ s₁ = s₂ := by
-  sorry
+  obtain ⟨basis₁, applied₁, a1, _, a2, a3, a4⟩ := (C06_iff env ss s₁ b₁).1 h₁
+  obtain ⟨basis₂, applied₂, c1, _, c2, c3, c4⟩ := (C06_iff env ss s₂ b₂).1 h₂
+  rw [a1] at c1; cases c1
+  rw [ht, c2] at a2; cases a2
+  rw [ha, c3] at a3; cases a3
+  rw [a4] at c4
+  exact ⟨Outcome.ok.inj c4, rfl⟩
 
 /-- changing the transactions or the action of an accepted block leaves it acceptable only if the changed block
     seals to the very same header -/
 theorem C06_content_mutation (env : Env) (ss s₁ s₂ : Sealed) (b₁ b₂ : Block) (hh : b₁.header = b₂.header)
     (h₁ : applyBlock env ss b₁ = .ok s₁) (h₂ : applyBlock env ss b₂ = .ok s₂) :
     headerOf env s₁ = headerOf env s₂ := by
-  sorry
+  obtain ⟨_, _, _, _, _, _, a4⟩ := (C06_iff env ss s₁ b₁).1 h₁
+  obtain ⟨_, _, _, _, _, _, c4⟩ := (C06_iff env ss s₂ b₂).1 h₂
+  rw [a4, c4, hh]
 
 /-- known finding (K1/F12): two actions whose deltas give the same scaled movement seal to the same state, hence
     the same header — the edited block is accepted. -/
@@ -64,10 +79,42 @@ theorem C06_delta_equivalent (env : Env) (s : State) (a₁ a₂ : ProposerAction
     (hm : moveFeeMultiplier s.feeMultiplier a₁.feeMultiplierDelta s.tip901 = moveFeeMultiplier s.feeMultiplier a₂.feeMultiplierDelta s.tip901)
     (h : sealState env s (some a₁) = .ok ss₁) :
     ∃ ss₂, sealState env s (some a₂) = .ok ss₂ ∧ ss₂.st = ss₁.st := by
-  sorry
+  unfold sealState at h ⊢
+  obtain ⟨s1, e1, h⟩ := Outcome.bind_eq_ok h
+  have hs1 := presealMelmint_same env s s1 e1
+  simp only [e1, Outcome.bind] at h ⊢
+  split at h
+  · cases h
+  · next hp =>
+    rw [if_neg hp]
+    obtain ⟨s2, e2, h⟩ := Outcome.bind_eq_ok h
+    have hs2 : SameFM s s2 := by
+      refine hs1.trans ?_
+      split at e2
+      · exact applyTip909_same _ _ e2
+      · cases e2; exact SameFM.refl _
+    obtain ⟨s3, e3, h⟩ := Outcome.bind_eq_ok h
+    cases h
+    have e3' : applyProposerAction env s2 a₂ = .ok s3 := by
+      rw [← e3]
+      unfold applyProposerAction
+      rw [hs2.1, hs2.tip901, hm]
+      exact (collectProposerFee_congr env _ a₁ a₂ hd).symm
+    refine ⟨{ st := s3, action := some a₂ }, ?_, rfl⟩
+    simp [e2, e3']
 
 /-- the witness: deltas 0 and 1 at multiplier 100 move the multiplier identically -/
 theorem C06_delta_witness : moveFeeMultiplier 100 0 true = moveFeeMultiplier 100 1 true := by
-  sorry
+  decide
 
 end Mel
+
+#print axioms Mel.C06_iff
+#print axioms Mel.C06_result_header
+#print axioms Mel.C06_fallback_irrelevant
+#print axioms Mel.C06_honest
+#print axioms Mel.C06_header_mutation
+#print axioms Mel.C06_deterministic
+#print axioms Mel.C06_content_mutation
+#print axioms Mel.C06_delta_equivalent
+#print axioms Mel.C06_delta_witness
